@@ -94,6 +94,9 @@ func GenTree(t *rapid.T, opt GenOpt) TreeDesc {
 		if rapid.IntRange(0, 4).Draw(t, "skipq") == 0 {
 			bd.Skip = rapid.IntRange(1, 3).Draw(t, "skip")
 		}
+		if rapid.IntRange(0, 3).Draw(t, "jitq") == 0 {
+			bd.Jitter = rapid.SampledFrom([]int{1, 250, 500, 501, 999}).Draw(t, "jitter")
+		}
 		if opt.Txs {
 			ntx := rapid.IntRange(0, 3).Draw(t, "ntx")
 			for k := 0; k < ntx; k++ {
